@@ -1823,7 +1823,9 @@ func c07ConstructorsCase(c *mon.Case) {
 		cbs = append(cbs, err)
 		mu.Unlock()
 	})}
-	if retryKind == 0 {
+	if retryKind == 0 && r.IntN(3) == 0 {
+		opts = append(opts, keyed.WithBackoff[string, int](func(string) cbackoff.BackOff { return &cbackoff.ZeroBackOff{} }))
+	} else if retryKind == 0 {
 		opts = append(opts, keyed.WithBackoff[string, int](func(string) cbackoff.BackOff { return cbackoff.NewConstantBackOff(rtBackoff) }))
 	} else {
 		opts = append(opts, keyed.WithRetry[string, int](&ubackoff.Backoff{BackoffKind: ubackoff.BackoffKind_BackoffKind_CONSTANT, Constant: &ubackoff.Constant{Interval: 1}}))
